@@ -28,6 +28,7 @@ import (
 	"fmt"
 	"math/big"
 	"os"
+	"path/filepath"
 	"strings"
 
 	"github.com/markkurossi/mpc/circuit"
@@ -56,7 +57,10 @@ type c03cgRaw struct {
 // (ssa.Program.Peephole, which ast/package.go has switched off: "liveness
 // analysis is broken") applied to the compiled program after its gc
 // instructions were dropped — the only way real code produces bts / btc.
-type c03cgOpt struct{ gmw, peephole bool }
+type c03cgOpt struct {
+	gmw, peephole bool
+	source        string // (virtual) name of the source file: native("x.circ") resolves next to it
+}
 
 // c03cgBuild = ssa.Program.CompileCircuit with a snapshot after prog.Circuit.
 func c03cgBuild(src string, opt c03cgOpt) (res c03cgRaw) {
@@ -74,7 +78,11 @@ func c03cgBuild(src string, opt c03cgOpt) (res c03cgRaw) {
 	}
 	buf := &c03Buf{}
 	params.SSAOut = buf
-	prog, _, err := compiler.New(params).CompileSSA("{data}", strings.NewReader(src), nil)
+	source := "{data}"
+	if opt.source != "" {
+		source = opt.source
+	}
+	prog, _, err := compiler.New(params).CompileSSA(source, strings.NewReader(src), nil)
 	res.listing = buf.String()
 	if err != nil {
 		res.err = err.Error()
@@ -218,6 +226,26 @@ func c03cgWf(prog *ssa.Program) (ok bool, why string) {
 		if in.Op == ssa.GC || in.Op == ssa.Ret {
 			continue
 		}
+		if in.Op == ssa.Circ {
+			// args_fit, tot ins = ninputs, ob = noutputs, circ_ok (Lang/CircGen.v, Lang/CircEmbed.v)
+			sub := in.Circ
+			good := sub != nil && in.Out == nil && len(in.In) == len(sub.Inputs)
+			if good {
+				tin, tout := 0, 0
+				for k, io := range sub.Inputs {
+					tin += int(io.Type.Bits)
+					good = good && in.In[k].Type.Bits <= io.Type.Bits
+				}
+				for _, r := range in.Ret {
+					tout += int(r.Type.Bits)
+				}
+				good = good && tin == sub.Inputs.Size() && tout == sub.Outputs.Size() && c03cgCircOK(sub)
+			}
+			if !good {
+				return false, "circ"
+			}
+			continue
+		}
 		if in.Out == nil {
 			return false, in.Op.String()
 		}
@@ -287,6 +315,40 @@ func c03cgWf(prog *ssa.Program) (ok bool, why string) {
 		}
 	}
 	return true, ""
+}
+
+// c03cgCircOK = circ_ok of Lang/CircEmbed.v, computed on the parsed circuit:
+// Circuit.wf (ids in range, every gate input assigned before use, outputs
+// assigned, no gate writes an input wire), single assignment, inputs and
+// outputs disjoint.
+func c03cgCircOK(sub *circuit.Circuit) bool {
+	n, ni, no := sub.NumWires, sub.Inputs.Size(), sub.Outputs.Size()
+	if ni > n || no > n || ni+no > n {
+		return false
+	}
+	asg := make([]bool, n)
+	for i := 0; i < ni; i++ {
+		asg[i] = true
+	}
+	for _, g := range sub.Gates {
+		a, b, o := int(g.Input0), int(g.Input1), int(g.Output)
+		if a >= n || o >= n || o < ni || !asg[a] {
+			return false
+		}
+		if g.Op != circuit.INV && (b >= n || !asg[b]) {
+			return false
+		}
+		if asg[o] {
+			return false // written twice
+		}
+		asg[o] = true
+	}
+	for w := n - no; w < n; w++ {
+		if !asg[w] {
+			return false
+		}
+	}
+	return true
 }
 
 var (
@@ -513,6 +575,8 @@ type c03cgDirected struct {
 	expect      func(in []*big.Int) []*big.Int // nil: no oracle (correspondence only)
 	noGmwOracle bool                           // division: the GMW (Goldschmidt) divider is not exact (F33)
 	thorough    bool                           // thorough tier only
+	source      string                         // (virtual) source file name; "" = {data}
+	rejected    string                         // non-empty: the compiler is known to reject this input with this message (no case then)
 }
 
 func c03cgPopcount(v *big.Int) int64 {
@@ -637,14 +701,21 @@ func c03cgDirectedPrograms() []c03cgDirected {
 
 // c03cgOpcodeFamily runs the directed programs (every run, both targets).
 func c03cgOpcodeFamily(c *Ctx) {
-	for _, d := range c03cgDirectedPrograms() {
+	for _, d := range append(c03cgDirectedPrograms(), c03cgCircPrograms(c)...) {
 		if d.thorough && !c.Thorough() {
 			continue
 		}
 		vecs := c03Vectors(c.rng.Fork(), d.widths, 10, 24)
 		var ssx SX
-		for ti, opt := range []c03cgOpt{{peephole: d.peephole}, {gmw: true, peephole: d.peephole}} {
+		for ti, opt := range []c03cgOpt{{peephole: d.peephole, source: d.source}, {gmw: true, peephole: d.peephole, source: d.source}} {
 			raw := c03cgBuild(d.src, opt)
+			if raw.err != "" && d.rejected != "" && strings.Contains(raw.err, d.rejected) {
+				// e.g. a native circuit file that writes an intermediate wire twice:
+				// circuits.Wire.SetInput panics ("wire input gate already set") — the
+				// compiler itself insists on single assignment (circ_ok's sa_gates)
+				c.Hist("cg-directed-rejected:" + d.rejected)
+				break
+			}
 			if raw.err != "" {
 				c.Fail("c03cg:directed:"+d.name+":compile", raw.err, c03cgReplay{Program: d.src, Error: raw.err})
 				break
@@ -652,7 +723,7 @@ func c03cgOpcodeFamily(c *Ctx) {
 			// which opcodes the real compilation produced
 			for _, st := range raw.prog.Steps {
 				switch st.Instr.Op {
-				case ssa.Concat, ssa.Bts, ssa.Btc, ssa.Builtin:
+				case ssa.Concat, ssa.Bts, ssa.Btc, ssa.Builtin, ssa.Circ:
 					c.Hist("cg-directed-opcode:" + st.Instr.Op.String())
 				}
 			}
@@ -698,4 +769,144 @@ func c03cgOpcodeFamily(c *Ctx) {
 			c03cgEmit(c, d.src, ssx, vecs, &raw, nil, opt, true)
 		}
 	}
+}
+
+// ------------------------------------------------------------------------
+// Directed programs for the opcode circ: MPCL programs calling native circuit
+// files.  (1) the natives of /repo/pkg/math (add64 / sub64; mul64 / div64 in
+// the thorough tier) called directly (the program's virtual source name lies in
+// pkg/math so that the file resolves), through the library wrappers, with a
+// narrow constant as first / last argument (zero padding of the flattened
+// argument), chained; (2) small random circuits of the shared generator
+// (gencirc.go: every gate kind, fan-out, in0 = in1, 1-2 inputs, 1-3 RESULTS,
+// every fifth with an overwritten intermediate wire = not single assignment:
+// cg_wf is false there on both sides) written next to the program by the real
+// Circuit.Marshal (.mpclc) / MarshalBristol (.circ) and read back by the real
+// circuit.Parse inside the compiler.  Oracle: 64-bit arithmetic resp. the
+// harness's own truth-table evaluator.  Correspondence: the real listing (with
+// instr.Circ as it stands in memory) under eval_ssa (mode 1) and circuit_of_ssa
+// (modes 4-7: the gate list of prog.Circuit(cc) gate for gate, both targets).
+
+func c03cgCircPrograms(c *Ctx) []c03cgDirected {
+	var l []c03cgDirected
+	m64 := new(big.Int).Lsh(big.NewInt(1), 64)
+	mod := func(x *big.Int) *big.Int { return x.Mod(x, m64) }
+	add := func(x, y *big.Int) *big.Int { return mod(new(big.Int).Add(x, y)) }
+	sub := func(x, y *big.Int) *big.Int { return mod(new(big.Int).Sub(x, y)) }
+	mathSrc := filepath.Join(c05RepoRoot(), "pkg", "math", "verifc03.mpcl")
+	one := func(name, body string, f func(in []*big.Int) *big.Int, src string, thorough bool) {
+		imp := ""
+		if src == "" {
+			imp = "import (\n\t\"math\"\n)\n\n"
+		}
+		l = append(l, c03cgDirected{
+			name:     "circ:" + name,
+			src:      "package main\n\n" + imp + "func main(a, b uint64) uint64 {\n" + body + "}\n",
+			widths:   []int{64, 64},
+			source:   src,
+			thorough: thorough,
+			expect:   func(in []*big.Int) []*big.Int { return []*big.Int{f(in)} }})
+	}
+	one("add64:direct", "\treturn native(\"add64.circ\", a, b)\n",
+		func(in []*big.Int) *big.Int { return add(in[0], in[1]) }, mathSrc, false)
+	one("sub64:wrapper", "\treturn math.SubUint64(a, b)\n",
+		func(in []*big.Int) *big.Int { return sub(in[0], in[1]) }, "", false)
+	one("add64:const-last", "\treturn native(\"add64.circ\", a ^ b, 12345)\n",
+		func(in []*big.Int) *big.Int { return add(new(big.Int).Xor(in[0], in[1]), big.NewInt(12345)) }, mathSrc, true)
+	one("sub64:const-first", "\treturn native(\"sub64.circ\", 77, a) + b\n",
+		func(in []*big.Int) *big.Int { return add(sub(big.NewInt(77), in[0]), in[1]) }, mathSrc, false)
+	one("add64-sub64:chained", "\tt := native(\"add64.circ\", a, b)\n\treturn native(\"sub64.circ\", t, 5) ^ math.AddUint64(b, b)\n",
+		func(in []*big.Int) *big.Int {
+			return new(big.Int).Xor(sub(add(in[0], in[1]), big.NewInt(5)), add(in[1], in[1]))
+		}, "", true)
+	one("mul64:direct", "\treturn native(\"mul64.circ\", a, b)\n",
+		func(in []*big.Int) *big.Int { return mod(new(big.Int).Mul(in[0], in[1])) }, mathSrc, true)
+
+	// circuit files written by the harness
+	dir := filepath.Join(c.OutDir, "c03circ")
+	if err := os.MkdirAll(dir, 0o755); err != nil {
+		c.Hist("circ-family:cannot-create-directory")
+		return l
+	}
+	abs, err := filepath.Abs(dir)
+	if err != nil {
+		abs = dir
+	}
+	r := c.rng.Fork()
+	n := c.N(12, 80)
+	for k := 0; k < n; k++ {
+		sub := GenCircuit(r, GenOpts{MinIn: 1, MaxIn: 10, MinGates: 1, MaxGates: 6 + 6*(k%7), MaxOut: 6, Overwrite: k%5 == 4})
+		format, ext := "mpclc", ".mpclc"
+		if k%2 == 1 {
+			format, ext = "bristol", ".circ"
+		}
+		file := fmt.Sprintf("g%d%s", k, ext)
+		f, err := os.Create(filepath.Join(abs, file))
+		if err != nil {
+			c.Hist("circ-family:cannot-write-file")
+			continue
+		}
+		err = sub.MarshalFormat(f, format)
+		f.Close()
+		if err != nil {
+			c.Hist("circ-family:marshal-error")
+			continue
+		}
+		var params, args, rts, rvs []string
+		var widths []int
+		for i, io := range sub.Inputs {
+			params = append(params, fmt.Sprintf("x%d uint%d", i, io.Type.Bits))
+			args = append(args, fmt.Sprintf("x%d", i))
+			widths = append(widths, int(io.Type.Bits))
+		}
+		for i, io := range sub.Outputs {
+			rts = append(rts, fmt.Sprintf("uint%d", io.Type.Bits))
+			rvs = append(rvs, fmt.Sprintf("r%d", i))
+		}
+		call := fmt.Sprintf("native(%q, %s)", file, strings.Join(args, ", "))
+		body := "\treturn " + call + "\n"
+		if k%3 == 1 {
+			// results bound to variables first
+			body = "\t" + strings.Join(rvs, ", ") + " := " + call + "\n\treturn " + strings.Join(rvs, ", ") + "\n"
+		}
+		subc := sub
+		shape := fmt.Sprintf("%s:in=%d,out=%d", format, len(sub.Inputs), len(sub.Outputs))
+		if k%5 == 4 {
+			shape += ",overwrite"
+		}
+		c.Hist("circ-family:" + shape)
+		rejected := ""
+		if !c03cgCircOK(sub) {
+			rejected = "wire input gate already set"
+		}
+		l = append(l, c03cgDirected{
+			rejected: rejected,
+			name:     fmt.Sprintf("circ:generated:%s", shape),
+			src:      "package main\n\nfunc main(" + strings.Join(params, ", ") + ") (" + strings.Join(rts, ", ") + ") {\n" + body + "}\n",
+			widths:   widths,
+			source:   filepath.Join(abs, fmt.Sprintf("prog%d.mpcl", k)),
+			expect: func(in []*big.Int) []*big.Int {
+				var x []bool
+				for i, io := range subc.Inputs {
+					for b := 0; b < int(io.Type.Bits); b++ {
+						x = append(x, in[i].Bit(b) == 1)
+					}
+				}
+				y := TruthEval(subc, x)
+				var outs []*big.Int
+				off := 0
+				for _, io := range subc.Outputs {
+					v := new(big.Int)
+					for b := 0; b < int(io.Type.Bits); b++ {
+						if y[off+b] {
+							v.SetBit(v, b, 1)
+						}
+					}
+					off += int(io.Type.Bits)
+					outs = append(outs, v)
+				}
+				return outs
+			}})
+	}
+	return l
 }
